@@ -17,7 +17,7 @@ from ..run import hyp_run
 
 ID = 'C10'
 LEVEL = 'exploration'
-BUDGET_S = {'quick': 120, 'thorough': 900}
+BUDGET_S = {'quick': 300, 'thorough': 900}
 RULE = ('ordered pairs (a,b) of one kind or with one blank, evaluated for all six operators in both orders '
         '(12 product evaluations per case) through =A1<op>B1 with overrides / workbook constants / literals; '
         'non-trivial = a and b are different values of the same kind, or exactly one is blank; numeric pairs are '
